@@ -81,7 +81,7 @@ def run_one(ctx, src, kw, ml, thresh, gen):
     nt, cl = classify(res, ml)
     st = ctx.stats
     st.case(key=(src, sorted((k, str(x)) for k, x in kw.items()), ml), nontrivial=nt, classes=[gen] + cl + (['multi-language'] if ml else []),
-            sample={'src': src[-300:], 'opts': {k: x for k, x in kw.items() if x}, 'ml': ml} if nt and st.evaluations % 2500 == 3 else None)
+            sample={'src': src[-300:], 'opts': {k: x for k, x in kw.items() if x}, 'ml': ml})
 
 
 def replay(case):
@@ -243,4 +243,4 @@ def run_shard(ctx):
         nt = case.get('_chars', 0) > 0
         ctx.stats.case(key=('cli', src, case['args'], ml), nontrivial=nt,
                        classes=['cli:--mula' if ml else 'cli:--nums'],
-                       sample={'cli_args': case['args'], 'mula': bool(ml), 'src': src[-200:]} if nt and ctx.stats.evaluations % 40 == 0 else None)
+                       sample={'cli_args': case['args'], 'mula': bool(ml), 'src': src[-200:]})
